@@ -503,6 +503,7 @@ package lang
 //@   ensures[C12] message: result.Message == msg
 //@   modifies nothing
 
+//@ ghost $subErr error
 //@ ghost $keyErr bool
 //@ ghost $cpErr bool
 //@ func Evaluator.evalExpr [C01,C02,C04,C07,C08,C09,C11,C12,C13,C15,C19,C20]
@@ -516,6 +517,9 @@ package lang
 //@   ensures[C11] fault-latched: $faulted <==> isFault(err)
 //@   ensures evok: evOK(e)
 //@   after Evaluator.pushFrame: $frame = e.stackTop
+//@   init $subErr = nil
+//@   after Evaluator.evalExpr: $subErr = ret1
+//@   ensures[C01,C02,C07] a-subexpressions-outcome-is-passed-on-unchanged: $subErr != nil ==> err == $subErr
 //@   init $nmatch = 0
 //@   init $ranBlock = false
 //@   after Evaluator.evalCaseMatch: $nmatch = (ret0 && ret2 == nil ? $nmatch + 1 : $nmatch)
@@ -544,9 +548,9 @@ package lang
 //@   ensures[C19] block-body-yields-null: err == nil && istype(expr, *ExprMatch) && $ranBlock ==> result0.Value.Tag == ValueNil && fresh(result0)
 //@   ensures[C19] no-match-yields-null: err == nil && istype(expr, *ExprMatch) && $nmatch == 0 ==> result0.Value.Tag == ValueNil && fresh(result0)
 //@   ensures[C19] expression-body-yields-its-value: err == nil && istype(expr, *ExprMatch) && $nmatch == 1 && !$ranBlock ==> result0 == $lastCell
-//@   loop 1 invariant protocol: evInv(e, old(e.stackTop)) && $nmatch == 0 && !$ranBlock && e.evalDepth == old(e.evalDepth) + 1
-//@   loop 2 invariant in-match-frame: evOK(e) && e.stackTop == $frame && $frame.parent == old(e.stackTop) && !$faulted && $nmatch == 1 && !$ranBlock && e.evalDepth == old(e.evalDepth) + 1
-//@   loop 3 invariant protocol: evInv(e, old(e.stackTop)) && obj.Obj != nil && *obj.Obj != nil && e.evalDepth == old(e.evalDepth) + 1 && !$keyErr && !$cpErr
+//@   loop 1 invariant protocol: evInv(e, old(e.stackTop)) && $nmatch == 0 && !$ranBlock && e.evalDepth == old(e.evalDepth) + 1 && $subErr == nil
+//@   loop 2 invariant in-match-frame: evOK(e) && e.stackTop == $frame && $frame.parent == old(e.stackTop) && !$faulted && $nmatch == 1 && !$ranBlock && e.evalDepth == old(e.evalDepth) + 1 && $subErr == nil
+//@   loop 3 invariant protocol: evInv(e, old(e.stackTop)) && obj.Obj != nil && *obj.Obj != nil && e.evalDepth == old(e.evalDepth) + 1 && !$keyErr && !$cpErr && $subErr == nil
 
 //@ func Evaluator.evalStatement [C01,C02,C07,C08,C10,C11,C17,C20]
 //@   modifies valueHeap, e.stackTop, e.returnVal, e.evalDepth
@@ -557,6 +561,9 @@ package lang
 //@   ensures[C02,C08,C20] stack-restored: stackKept(e, old(e.stackTop), result)
 //@   ensures[C11] fault-latched: $faulted <==> isFault(result)
 //@   ensures evok: evOK(e)
+//@   init $subErr = nil
+//@   after Evaluator.evalExpr: $subErr = ret1
+//@   ensures[C01,C02,C07] an-expressions-outcome-is-passed-on-unchanged: $subErr != nil ==> result == $subErr
 //@   after Value.PrettyString: $pretty = ret0
 //@   after Evaluator.evalExprList: $outAfterArgs = $out
 //@   init $nr = 0
@@ -577,17 +584,18 @@ package lang
 //@   assert[C07] for-body-follows-a-true-condition: istype(stmt, *StatementFor) ==> arg1 == as(stmt, *StatementFor).Body && $lastExprArg == as(stmt, *StatementFor).Expr && $lastTruthy @ Evaluator.evalStatement
 //@   assert[C07] for-post-runs-only-after-a-completed-or-continued-iteration: istype(stmt, *StatementFor) && arg1 == as(stmt, *StatementFor).PostExpr && arg1 != as(stmt, *StatementFor).PreExpr && arg1 != as(stmt, *StatementFor).Expr ==> $lastOut == nil || $lastOut == errContinue @ Evaluator.evalExpr
 //@   assert[C07] loop-continues-only-after-a-completed-or-continued-iteration: (istype(stmt, *StatementWhile) || istype(stmt, *StatementFor)) ==> $lastOut == nil || $lastOut == errContinue @ Evaluator.evalExpr
-//@   loop 0 invariant protocol: evInv(e, old(e.stackTop)) && e.evalDepth == old(e.evalDepth) + 1
-//@   loop 1 invariant protocol: evInv(e, old(e.stackTop)) && e.evalDepth == old(e.evalDepth) + 1
+//@   loop 0 invariant protocol: evInv(e, old(e.stackTop)) && e.evalDepth == old(e.evalDepth) + 1 && $subErr == nil
+//@   loop 1 invariant protocol: evInv(e, old(e.stackTop)) && e.evalDepth == old(e.evalDepth) + 1 && $subErr == nil
 //@   loop 1 invariant[C17] the-first-two-renderings-so-far: (rangeindex == 0 - 1 ==> $nr == 0 && $out == $outAfterArgs) && (rangeindex == 0 ==> $nr == 1 && $out == $outAfterArgs + $r0) && (rangeindex == 1 ==> $nr == 2 && $out == $outAfterArgs + $r0 + " " + $r1)
-//@   loop 2 invariant protocol: evInv(e, old(e.stackTop)) && ($lastOut == nil || $lastOut == errContinue) && e.evalDepth == old(e.evalDepth) + 1
-//@   loop 3 invariant protocol: evInv(e, old(e.stackTop)) && ($lastOut == nil || $lastOut == errContinue) && e.evalDepth == old(e.evalDepth) + 1
-//@   loop 4 invariant protocol: evInv(e, old(e.stackTop)) && e.evalDepth == old(e.evalDepth) + 1
-//@   loop 5 invariant protocol: evInv(e, old(e.stackTop)) && fresh(keys) && e.evalDepth == old(e.evalDepth) + 1
-//@   loop 6 invariant protocol: evInv(e, old(e.stackTop)) && e.evalDepth == old(e.evalDepth) + 1
+//@   loop 2 invariant protocol: evInv(e, old(e.stackTop)) && ($lastOut == nil || $lastOut == errContinue) && e.evalDepth == old(e.evalDepth) + 1 && $subErr == nil
+//@   loop 3 invariant protocol: evInv(e, old(e.stackTop)) && ($lastOut == nil || $lastOut == errContinue) && e.evalDepth == old(e.evalDepth) + 1 && $subErr == nil
+//@   loop 4 invariant protocol: evInv(e, old(e.stackTop)) && e.evalDepth == old(e.evalDepth) + 1 && $subErr == nil
+//@   loop 5 invariant protocol: evInv(e, old(e.stackTop)) && fresh(keys) && e.evalDepth == old(e.evalDepth) + 1 && $subErr == nil
+//@   loop 6 invariant protocol: evInv(e, old(e.stackTop)) && e.evalDepth == old(e.evalDepth) + 1 && $subErr == nil
 //@   loop 6 invariant[C07,C10] object-keys-visited-in-sorted-order: forall i int, j int :: 0 <= i && i < j && j < len(keys) ==> scmpS(keys[i], keys[j]) <= 0
-//@   loop 7 invariant protocol: evInv(e, old(e.stackTop)) && e.evalDepth == old(e.evalDepth) + 1
+//@   loop 7 invariant protocol: evInv(e, old(e.stackTop)) && e.evalDepth == old(e.evalDepth) + 1 && $subErr == nil
 
+//@ ghost $lastCopy *Cell
 //@ func Evaluator.evalExprList [C01,C02,C08,C09,C11,C20]
 //@   modifies valueHeap, e.stackTop, e.returnVal, e.evalDepth
 //@   ensures[C20] depth-restored: e.evalDepth == old(e.evalDepth)
@@ -603,6 +611,9 @@ package lang
 //@   ensures evok: evOK(e)
 
 //@   ensures[C09] copies-live-in-fresh-cells: err == nil && copy ==> (forall k int :: 0 <= k && k < len(result0) ==> fresh(result0[k]))
+//@   init $lastCopy = nil
+//@   after copyValue: $lastCopy = ret0
+//@   loop 0 invariant[C01,C09,C15] every-operand-handed-on-in-copy-mode-went-through-copyValue: copy && rangeindex >= 0 ==> evaledExprs[rangeindex] == $lastCopy
 //@   loop 0 invariant own-list: fresh(evaledExprs) && e.evalDepth == old(e.evalDepth)
 //@   loop 0 invariant[C09] copies-so-far-fresh: copy ==> (forall k int :: 0 <= k && k <= rangeindex ==> fresh(evaledExprs[k]))
 //@   loop 0 invariant protocol: evInv(e, old(e.stackTop)) && len(evaledExprs) == rangeindex + 1 && $itemErr == nil
@@ -829,8 +840,8 @@ package lang
 //@   updates nothing
 //@   modifies nothing
 //@   ensures[C09] only-a-container-standing-where-a-placeholder-was: result != nil ==> (result.Tag == ValueObj || result.Tag == ValueArray) && spec.Tag == ValueNil && spec.ParentObj != nil
-//@   ensures[C09] a-member-created-meanwhile-is-found: spec.Tag == ValueNil && spec.ParentObj != nil && spec.ParentObj.Tag == ValueObj && spec.Str != nil && has(*spec.ParentObj.Obj, *spec.Str) && isContainerCell((*spec.ParentObj.Obj)[*spec.Str]) ==> result != nil && result.Tag == (*spec.ParentObj.Obj)[*spec.Str].Value.Tag
-//@   ensures[C09] an-element-created-meanwhile-is-found: spec.Tag == ValueNil && spec.ParentObj != nil && spec.ParentObj.Tag == ValueArray && spec.Num != nil && 0 <= int(*spec.Num) && int(*spec.Num) < len(spec.ParentObj.Array) && isContainerCell(spec.ParentObj.Array[int(*spec.Num)]) ==> result != nil && result.Tag == spec.ParentObj.Array[int(*spec.Num)].Value.Tag
+//@   ensures[C09] a-member-created-meanwhile-is-found: spec.Tag == ValueNil && spec.ParentObj != nil && spec.ParentObj.Tag == ValueObj && spec.Str != nil && has(*spec.ParentObj.Obj, *spec.Str) && isContainerCell((*spec.ParentObj.Obj)[*spec.Str]) ==> result == &(*spec.ParentObj.Obj)[*spec.Str].Value
+//@   ensures[C09] an-element-created-meanwhile-is-found: spec.Tag == ValueNil && spec.ParentObj != nil && spec.ParentObj.Tag == ValueArray && spec.Num != nil && 0 <= int(*spec.Num) && int(*spec.Num) < len(spec.ParentObj.Array) && isContainerCell(spec.ParentObj.Array[int(*spec.Num)]) ==> result == &spec.ParentObj.Array[int(*spec.Num)].Value
 //@ ghost $found *Value
 //@ func Evaluator.createSpeculativeObjects [C01,C09,C11,C20]
 //@   init $found = nil
@@ -888,7 +899,7 @@ package lang
 // Index a member expression denotes on an array of length n: negative indices count from the end.
 //@ spec func effIndex(n int, m Value) int = int(*m.Num) < 0 ? n + int(*m.Num) : int(*m.Num)
 
-//@ func Value.SetMember [C01,C09,C11,C20]
+//@ func Value.SetMember [C01,C09,C11,C15,C20]
 //@   allocbound[C20] no-allocation-sized-by-an-index: 16
 //@   requires v != nil && cell != nil && !$faulted
 //@   updates $faulted
@@ -1221,7 +1232,7 @@ package lang
 // Precedence of the token under the cursor, as recorded in the rule table.
 //@ spec func precAt(p *Parser) Precedence = has(p.rules, p.current.Tag) ? p.rules[p.current.Tag].prec : PrecNone
 
-//@ func Parser.expressionWithPrec [C01,C06]
+//@ func Parser.expressionWithPrec [C01,C06,C13]
 //@   requires parserOK(p)
 //@   updates nothing
 //@   modifies parserState
